@@ -68,3 +68,24 @@ func init() {
 		OutsideBounds: []string{"memory destinations with displacements or SIB", "immediates whose value modulo the operand width would fit imm8 although the written value does not (e.g. ADD AX,0xFFFF): no length is demanded there", "that the bytes are a correct encoding at all (C01)"},
 	}
 }
+
+func init() {
+	properties["C04"] = &propSpec{ID: "C04",
+		Bounds: []string{
+			"numeric targets: all 31 jump mnemonics + CALL x modes 16/32 x origin and target symbolic over [0,2^16) resp. [0,2^32) (decimal digit classes 1,3,5,10; thorough: all)",
+			"label targets: forward/backward x gap in {0,1,2,3,120..135} x with/without a further label after the branch x origin symbolic in [0,0xf000]; quick: JMP CALL JE JNGE, thorough: all mnemonics",
+			"far JMP DWORD sel:off with sel in [0,0xffff], off in [0,2^32)",
+		},
+		OutsideBounds: []string{"label distances beyond 135 bytes other than through numeric targets", "SHORT/NEAR/FAR keywords on relative branches", "indirect JMP/CALL"},
+		Quick: tierSpec{Harnesses: []harnessSpec{
+			{Func: gp + "internal/zzverif.VC04Num", Discover: 2, Digits: 10, Reach: []string{"c04.accepted"}},
+			{Func: gp + "internal/zzverif.VC04Label", Discover: 3, Digits: 5, Reach: []string{"c04l.accepted"}},
+			{Func: gp + "internal/zzverif.VC04Far", Discover: 1, Digits: 10, Reach: []string{"c04f.accepted"}},
+		}},
+		Thorough: tierSpec{Harnesses: []harnessSpec{
+			{Func: gp + "internal/zzverif.VC04Num", Discover: 2, Digits: 10, Params: map[string]int{"alldigits": 1}, Reach: []string{"c04.accepted"}},
+			{Func: gp + "internal/zzverif.VC04Label", Discover: 3, Digits: 5, Params: map[string]int{"allregs": 1}, Reach: []string{"c04l.accepted"}},
+			{Func: gp + "internal/zzverif.VC04Far", Discover: 1, Digits: 10, Reach: []string{"c04f.accepted"}},
+		}},
+	}
+}
